@@ -38,16 +38,89 @@ HERE = os.path.dirname(os.path.abspath(__file__))
 _INV: Optional[Set[str]] = None
 
 
+_DETAILS: Dict[str, dict] = {}
+
+
 def inventory() -> Set[str]:
     global _INV
     if _INV is None:
         p = os.path.join(HERE, "inventory.json")
         try:
             with open(p) as fh:
-                _INV = set(json.load(fh)["functions"])
+                d = json.load(fh)
+            _INV = set(d["functions"])
+            _DETAILS.update(d.get("details", {}))
         except OSError:
             _INV = set()
     return _INV
+
+
+# --------------------------------------------------------------------------------------------- N0 (renamed private functions)
+
+def _fingerprint(fn: ast.FunctionDef) -> Tuple[List[str], Set[str]]:
+    calls = set()
+    for n in ast.walk(fn):
+        if isinstance(n, ast.Call):
+            f = n.func
+            calls.add(f.attr if isinstance(f, ast.Attribute) else f.id if isinstance(f, ast.Name) else "")
+        elif isinstance(n, ast.Attribute):
+            calls.add("." + n.attr)
+    calls.discard("")
+    calls.discard(fn.name)
+    a = fn.args
+    params = [x.arg for x in a.posonlyargs + a.args + a.kwonlyargs] + ([("*" + a.vararg.arg)] if a.vararg else []) \
+        + ([("**" + a.kwarg.arg)] if a.kwarg else [])
+    return params, calls
+
+
+def renamed_private_functions(tree: ast.Module, modname: str) -> Dict[str, str]:
+    """new name -> inventory name, for every PRIVATE function of the inventory that is missing from this module while exactly
+    one function that is not in the inventory sits in the same scope, takes the same parameters and has a similar body
+    (Jaccard similarity of the names it calls / reads >= 0.6): the function was renamed, not removed."""
+    inv = inventory()
+    if not _DETAILS:
+        return {}
+    present = _qualnames(tree, modname)
+    missing = [q[len(modname) + 1:] for q in inv if q.startswith(modname + ":") and q[len(modname) + 1:] not in present
+               and q.split(":")[1].split(".")[-1].startswith("_") and not q.split(".")[-1].startswith("__")]
+    missing = [q for q in missing if q.count(".") <= 1]
+    unknown = [q for q in present if f"{modname}:{q}" not in inv and q.split(".")[-1].startswith("_") and not q.split(".")[-1].startswith("__")]
+    out: Dict[str, str] = {}
+    for old in missing:
+        det = _DETAILS.get(f"{modname}:{old}")
+        if not det:
+            continue
+        scope = old.rsplit(".", 1)[0] if "." in old else None
+        cands = []
+        for q in unknown:
+            qscope = q.rsplit(".", 1)[0] if "." in q else None
+            if qscope != scope:
+                continue
+            params, names = _fingerprint(present[q][0])
+            if params != det["params"]:
+                continue
+            want = set(det["names"])
+            sim = len(want & names) / max(1, len(want | names))
+            if sim >= 0.6:
+                cands.append((sim, q))
+        if len(cands) == 1:
+            out[cands[0][1].split(".")[-1]] = old.split(".")[-1]
+    # a new name claimed by two old ones (or vice versa) is ambiguous
+    if len(set(out.values())) != len(out):
+        return {}
+    return out
+
+
+def apply_renames(tree: ast.Module, renames: Dict[str, str]) -> None:
+    for n in ast.walk(tree):
+        if isinstance(n, ast.FunctionDef) and n.name in renames:
+            n.name = renames[n.name]
+        elif isinstance(n, ast.Name) and n.id in renames:
+            n.id = renames[n.id]
+        elif isinstance(n, ast.Attribute) and n.attr in renames:
+            n.attr = renames[n.attr]
+        elif isinstance(n, ast.alias) and n.name in renames:
+            n.name = renames[n.name]
 
 
 # --------------------------------------------------------------------------------------------- N2
